@@ -43,15 +43,15 @@ def client_data(n, idx, seed=0, domains=2):
   return {'x': x, 'y': y, 'domain_id': d}
 
 
-def population(sizes, seed=0, domains=2, ids=None, data_fn=None):
-  """[(client_id, ClientDataset, PRNGKey)]"""
+def population(sizes, seed=0, domains=2, ids=None, data_fn=None, typed_keys=False):
+  """[(client_id, ClientDataset, PRNGKey)]; typed_keys: new-style jax.random.key(...) keys with the same key data."""
   import fedjax
   import jax
   out = []
   for i, n in enumerate(sizes):
     cid = ids[i] if ids else (b'c%d' % i)
     ex = (data_fn or client_data)(n, i, seed, domains)
-    out.append((cid, fedjax.ClientDataset(ex), jax.random.PRNGKey(100 + i)))
+    out.append((cid, fedjax.ClientDataset(ex), jax.random.key(100 + i) if typed_keys else jax.random.PRNGKey(100 + i)))
   return out
 
 
